@@ -142,6 +142,22 @@ ConstructSet(q, Om) ==
              i \in 1..Len(Om), j \in 1..Len(q.template)} :
       ~IsErr(tr[1]) /\ ~IsErr(tr[2]) /\ ~IsErr(tr[3]) /\ ~IsLit(tr[1]) /\ tr[2].k = "iri"}
 
+(* a blank node in a CONSTRUCT template denotes a fresh node per solution (16.2.1): solution i's copy is [k "bnode", v label, i i].  The answer's
+   labels are rdflib's own, so the comparison is up to renaming: the same number of triples, the same triples once blank nodes are masked, and
+   the same number of distinct blank nodes (sharing nodes between solutions, or dropping duplicates of a solution, changes one of the three) *)
+TemplateHasBnode(q) == \E j \in 1..Len(q.template) : \E pos \in 1..3 : q.template[j][pos].k = "bnode"
+InstB(x, mu, i) == IF x.k = "bnode" THEN [k |-> "bnode", v |-> x.v, i |-> i] ELSE Inst(x, mu)
+ConstructSetB(q, Om) ==
+  {tr \in {<<InstB(q.template[j][1], Om[i], i), InstB(q.template[j][2], Om[i], i), InstB(q.template[j][3], Om[i], i)>> :
+             i \in 1..Len(Om), j \in 1..Len(q.template)} :
+      ~IsErr(tr[1]) /\ ~IsErr(tr[2]) /\ ~IsErr(tr[3]) /\ ~IsLit(tr[1]) /\ tr[2].k = "iri"}
+MaskB(x) == IF x.k = "bnode" THEN [k |-> "bnode", v |-> "_"] ELSE x
+Masked(T) == {<<MaskB(tr[1]), tr[2], MaskB(tr[3])>> : tr \in T}
+BnodesOf(T) == {tr[1] : tr \in {u \in T : u[1].k = "bnode"}} \cup {tr[3] : tr \in {u \in T : u[3].k = "bnode"}}
+ConstructOKB(got, exp) == /\ Cardinality(got) = Cardinality(exp)
+                          /\ Masked(got) = Masked(exp)
+                          /\ Cardinality(BnodesOf(got)) = Cardinality(BnodesOf(exp))
+
 QWithInit(q, e) == IF Has(e, "init") THEN [q EXCEPT !.where = [elts |-> <<[t |-> "group", g |-> q.where], [t |-> "values", vars |-> e.init.vars, rows |-> e.init.rows]>>]] ELSE q
 
 (* KF_C15_init_everywhere: initBindings are not joined like a VALUES row but pre-bound in every scope of the query
@@ -156,6 +172,8 @@ QueryVerdict0(q0, e, c0) ==
   IF r.k = "raise" THEN "QueryRaised"
   ELSE IF r.k = "timeout" THEN "Terminates"
   ELSE IF q.form = "ask" THEN (IF r.v = (Len(EvalGroup(q.where, c, EmptyMu)) > 0) THEN "ok" ELSE "AskAgrees")
+  ELSE IF q.form = "construct" /\ TemplateHasBnode(q)
+       THEN (IF ConstructOKB(SToSet(r.triples), ConstructSetB(q, EvalGroup(q.where, c, EmptyMu))) THEN "ok" ELSE "ConstructFreshBnodes")
   ELSE IF q.form = "construct" THEN (IF SToSet(r.triples) = ConstructSet(q, EvalGroup(q.where, c, EmptyMu)) THEN "ok" ELSE "ConstructAgrees")
   ELSE IF Has(q, "aggs") THEN
        (IF SToSet(r.vars) # SToSet(q.proj) THEN "ProjectOK" ELSE IF AggGeneral(q) THEN AggVerdictPerm(q, r.rows, c) ELSE AggVerdict(q, r.rows, c))
